@@ -7,8 +7,9 @@ soundness statement on the implementation output with sampled members and identi
 import CweModel.Base.Proto
 import CweModel.C13.Model
 import CweModel.C13.Eval
+import CweModel.C13.Cond
 import CweModel.C12.Model
-open Lean CweModel.Proto CweModel.IR CweModel.Itv
+open Lean CweModel.Proto CweModel.IR CweModel.Itv CweModel.MemRegion
 
 namespace CweModel.C13
 
@@ -402,6 +403,280 @@ def handleEv (j : Json) : Except String String := do
     (s!"ev {kind}" ++ (if evaluated > 0 then " concretely-evaluated" else "") ++
       (if impl.rel.any (·.1 == gid) then " global-pointer" else ""))
 
+
+/-! ## PI-lite streams 3 and 4: `Context::update_def` on stack states, `Context::specialize_conditional` -/
+
+def parseRegList (j : Json) : Except String (List (Variable × DData)) := do
+  mapM' (fun r => do
+    let a ← r.getArr?
+    let v : Variable := { name := ← a[0]!.getStr?, size := ← a[1]!.getNat? }
+    return (v, ← parseDData a[2]!)) (← j.getArr?).toList
+
+def parseObjs (j : Json) : Except String Objs := do
+  mapM' (fun o => do
+    let a ← o.getArr?
+    let cells ← mapM' (fun c => do
+      let ca ← c.getArr?
+      return ((← ca[0]!.getInt?), (← parseDData ca[1]!))) (← a[2]!.getArr?).toList
+    let ob : Obj := { unique := ← a[1]!.getBool?, mem := cells }
+    return ((← a[0]!.getNat?), ob)) (← j.getArr?).toList
+
+/-- the state `build_state` of the harness constructs -/
+def parseInit (j : Json) (sid gid : Nat) : Except String MSt := do
+  let regs ← parseRegList (← field j "regs")
+  let globals ← mapM' (fun g => g.getNat?) (← arrF j "globals")
+  let extra ← mapM' (fun e => do
+    let a ← e.getArr?
+    return ((← a[0]!.getNat?), (← a[1]!.getBool?))) (← arrF j "extra")
+  let stackUnique := match j.getObjVal? "stack_unique" with | .ok (.bool b) => b | _ => true
+  let objs0 : Objs := [(sid, { unique := stackUnique, mem := [] }), (gid, { unique := true, mem := [] })]
+  -- `add_abstract_object` on an existing identifier marks it as not unique and merges with an empty object
+  let objs := extra.foldl (fun (os : Objs) (e : Nat × Bool) =>
+    match objGet os e.1 with
+    | some _ => objSet os e.1 { unique := false, mem := [] }
+    | none => os ++ [(e.1, { unique := e.2, mem := [] })]) objs0
+  let objs := objs.mergeSort (fun a b => a.1 ≤ b.1)
+  return { st := { regs := regs, globals := globals, gid := gid }, stackId := sid, objs := objs }
+
+/-- the state the harness reports after a step, as a model state -/
+def parseImplState (j : Json) (globals : List Nat) (sid gid : Nat) : Except String MSt := do
+  let regs ← parseRegList (← field j "regs")
+  let objs ← parseObjs (← field j "objs")
+  return { st := { regs := regs, globals := globals, gid := gid }, stackId := sid, objs := objs }
+
+def msVars : List Variable :=
+  (["RSP", "RBP", "RDI", "RAX", "RBX", "RCX", "RDX", "RSI"].map fun n => ({ name := n, size := 8 } : Variable)) ++
+  (["E4A", "E4B"].map fun n => ({ name := n, size := 4 } : Variable)) ++ [{ name := "H2A", size := 2 }] ++
+  (["ZF", "CF", "B1A"].map fun n => ({ name := n, size := 1 } : Variable))
+
+def showRegion (r : Region DData) : String :=
+  "[" ++ ",".intercalate (r.map fun c => s!"{c.1}:{showDData c.2}") ++ "]"
+
+/-- first difference between the model state and the reported state -/
+def stateDiff (m impl : MSt) : Option String :=
+  let vars := (msVars ++ m.st.regs.map (·.1) ++ impl.st.regs.map (·.1)).eraseDups
+  match vars.find? (fun v => m.st.getReg v != impl.st.getReg v) with
+  | some v => some s!"reg:{v.name} model={showDData (m.st.getReg v)} impl={showDData (impl.st.getReg v)}"
+  | none =>
+    if m.objs.map (·.1) != impl.objs.map (·.1) then some s!"objects model={m.objs.map (·.1)} impl={impl.objs.map (·.1)}"
+    else
+      (m.objs.zip impl.objs).findSome? fun (a, b) =>
+        if a.2.unique != b.2.unique then some s!"unique:id{a.1}"
+        else if a.2.mem != b.2.mem then some s!"region:id{a.1} model={showRegion a.2.mem} impl={showRegion b.2.mem}"
+        else none
+
+/-- a concrete register file inside γρ of the register values (`none` if some value has no sampled member) -/
+def pickState (ρ : Nat → Int) (regs : List (Variable × DData)) (seed k : Nat) : Option Sem.State :=
+  let σ0 : Sem.State := { seed := seed + k }
+  let picks := regs.zipIdx.map fun ((v, d), idx) =>
+    let ms := membersOf ρ d 6
+    (v, ms[(k * 7 + idx * 3 + seed) % ms.length]?)
+  if picks.all (·.2.isSome) then
+    -- unbound 1-byte registers are flags: P-Code booleans are 0 or 1
+    let σ1 := msVars.foldl (fun s v =>
+      if v.size == 1 && !(regs.any (·.1 == v)) then s.setReg v (Bv.ofBytes 1 (Sem.mix (seed + k) (Sem.strHash v.name) % 2)) else s) σ0
+    some (picks.foldl (fun s p => match p.2 with | some x => s.setReg p.1 x | none => s) σ1)
+  else none
+
+/-- all 1-byte registers hold 0 or 1 -/
+def flagsBoolean (σ : Sem.State) : Bool := msVars.all fun v => v.size != 1 || (σ.getReg v).toNat ≤ 1
+
+/-- every operand of a Boolean operation evaluates to a P-Code boolean (0 or 1) -/
+def boolOperandsOk (σ : Sem.State) : Expression → Bool
+  | .BinOp op l r =>
+    boolOperandsOk σ l && boolOperandsOk σ r &&
+      (match op with
+       | .BoolAnd | .BoolOr | .BoolXOr =>
+         (match Sem.eval σ l, Sem.eval σ r with
+          | some a, some b => a.toNat ≤ 1 && b.toNat ≤ 1
+          | _, _ => false)
+       | _ => true)
+  | .UnOp _ a => boolOperandsOk σ a
+  | .Cast _ _ a => boolOperandsOk σ a
+  | .Subpiece _ _ a => boolOperandsOk σ a
+  | _ => true
+
+/-- some offset (or a value an offset may be computed from) is so close to the i64 bounds that `position + size` overflows in `mem_region.rs`
+(the no-overflow precondition of the C05 model of `MemRegion`) -/
+def offsetOverflowRisk (s : MSt) : Bool :=
+  let near (o : IntervalDomain) : Bool := o.interval.stop > i64Max - 4096 || o.interval.start < i64Min + 4096
+  s.st.regs.any fun (_, d) => d.rel.any (fun (_, o) => near o) || (match d.abs with | some a => near a | none => false)
+
+/-- executable γρ of a reported state: registers, and the memory objects (`allObjs`: all of them, each at the
+base its identifier stands for; else only the stack object) -/
+def checkState (ρ : Nat → Int) (allObjs : Bool) (s : MSt) (σ : Sem.State) : Option String :=
+  match msVars.find? (fun v => !(s.st.getReg v).contains ρ (σ.getReg v)) with
+  | some v => some s!"reg:{v.name}={showBv (σ.getReg v)}∉{showDData (s.st.getReg v)}"
+  | none =>
+    s.objs.findSome? fun (id, o) =>
+      if allObjs || id == s.stackId then
+        (o.mem.find? fun c => !c.2.contains ρ (readCell σ (ρ id) c.1 c.2.size)).map fun c =>
+          s!"cell:id{id}@{c.1}={showBv (readCell σ (ρ id) c.1 c.2.size)}∉{showDData c.2}"
+      else none
+
+def regsOk (s : MSt) : Bool := s.st.regs.all fun (v, d) => wfDataB d && d.size == v.size
+
+def objsOk (s : MSt) : Bool := s.objs.all fun (_, o) => o.mem.all fun c => wfDataB c.2
+
+/-- the step is inside the PROVED fragment (on the state before the step) -/
+def defInFrag (s : MSt) : Def → Bool
+  | .Assign x e => decide (C12.WellSized e) && e.bytesize == x.size
+  | .Store a v => decide (C12.WellSized a) && decide (C12.WellSized v) && s.storeFrag a
+  | .Load x a => decide (C12.WellSized a) && x.size > 0 && s.loadFrag a
+
+/-- the broader class evaluated with well-separated identifier bases only: every concrete address is a
+relative target (no absolute part, no top flag for stores) -/
+def defInBroad (s : MSt) : Def → Bool
+  | .Assign x e => decide (C12.WellSized e) && e.bytesize == x.size
+  | .Store a v =>
+    let A := s.st.eval a
+    -- (a merge-write stops at the first target without memory object: such pointers are not in the class)
+    decide (C12.WellSized a) && decide (C12.WellSized v) && A.abs.isNone && !A.top && !A.rel.isEmpty &&
+      (A.rel.length == 1 || A.rel.all fun p => (objGet s.objs p.1).isSome)
+  | .Load x a =>
+    let A := s.st.eval a
+    decide (C12.WellSized a) && x.size > 0 && A.abs.isNone
+
+def defAddress : Def → Option Expression
+  | .Assign _ _ => none
+  | .Store a _ => some a
+  | .Load _ a => some a
+
+def defKind : Def → String
+  | .Assign _ _ => "assign" | .Store _ _ => "store" | .Load _ _ => "load"
+
+def handleMs (j : Json) : Except String String := do
+  let sid ← natF j "sid"
+  let gid ← natF j "gid"
+  let seed ← natF j "seed"
+  let s0 ← parseInit (← field j "init") sid gid
+  let defs ← mapM' parseDef (← arrF j "defs")
+  let implJ ← field j "impl"
+  if let .ok m := implJ.getStr? then
+    -- a panic of the real code is accepted only where the model predicts one (`none`: i64 overflow of
+    -- `end + size` in `mark_interval_values_as_top`, width assertions of `MemRegion::add/get`)
+    let predicted := (defs.foldl (fun (acc : Option MSt × Bool) d =>
+      match acc with
+      | (some s, false) =>
+        (match updateDef s d with
+         | none => (none, true)
+         | some none => (none, false)
+         | some (some s') => (some s', false))
+      | other => other) (some s0, false)).2
+    if predicted then return "ok ms model-predicts-panic"
+    if offsetOverflowRisk s0 then return "ok ms impl-panic-i64-overflow-precondition"
+    return s!"spec class=ms-impl-{(m.splitOn ":").headD "panic"} expected=states impl={m.take 100}"
+  let implArr ← implJ.getArr?
+  let impls : List (Option MSt) ← mapM' (fun (x : Json) =>
+    if x == Json.null then pure none else some <$> parseImplState x s0.st.globals sid gid) implArr.toList
+  -- 1. the soundness statement on the implementation's states, along concrete runs
+  let mut checked := 0
+  let mut fragSteps := 0
+  if regsOk s0 then
+    for k in List.range 6 do
+      let ρ := ((rhos gid)[k % 4]?).getD (fun _ => 0)
+      let separated := k % 4 == 0
+      match pickState ρ s0.st.regs seed k with
+      | none => pure ()
+      | some σ0 =>
+        let mut σ := σ0
+        let mut pre := s0
+        let mut go := true
+        for (d, i) in defs.zipIdx do
+          if go && i < impls.length then
+            let inF := defInFrag pre d && objsOk pre
+            if !(inF || (separated && defInBroad pre d && objsOk pre)) then go := false
+            else
+              -- accesses in the NULL window do not complete
+              let nullAbort := match defAddress d with
+                | some a => match Sem.eval σ a with
+                  | some addr => inNullWindow 64 addr.toNat
+                  | none => true
+                | none => false
+              if nullAbort then go := false
+              else
+                match Sem.execDef σ d with
+                | none => go := false
+                | some (σ', _) =>
+                  match impls[i]?.join with
+                  | none =>
+                    return s!"spec class=ms-certain-null-completed:{defKind d} expected=state impl=none step={i} run={k}"
+                  | some im =>
+                    match checkState ρ separated im σ' with
+                    | some e =>
+                      return s!"spec class=ms-excluded-after-{defKind d}{if inF then "" else "-broad"} expected=member impl={e} step={i} run={k}"
+                    | none =>
+                      checked := checked + 1
+                      if inF then fragSteps := fragSteps + 1
+                      σ := σ'
+                      pre := im
+  -- 2. model = implementation, step by step
+  let mut cur := s0
+  let mut compared := 0
+  let mut outside := false
+  for (d, i) in defs.zipIdx do
+    if i < impls.length && !outside then
+      match updateDef cur d, impls[i]?.join with
+      | none, _ => outside := true
+      | some none, none => compared := compared + 1
+      | some none, some _ => return s!"diff class=ms-null-cut:{defKind d} model=none impl=state step={i}"
+      | some (some _), none => return s!"diff class=ms-null-cut:{defKind d} model=state impl=none step={i}"
+      | some (some m), some im =>
+        match stateDiff m im with
+        | some e => return s!"diff class=ms-{defKind d} step={i} {e}"
+        | none => compared := compared + 1; cur := m
+  return s!"ok ms" ++ (if outside then " outside-model" else "") ++ (if compared == defs.length then " all-steps-compared" else "")
+    ++ (if checked > 0 then " concretely-checked" else "") ++ (if fragSteps > 0 then " in-proved-fragment" else "")
+
+def handleSc (j : Json) : Except String String := do
+  let sid ← natF j "sid"
+  let gid ← natF j "gid"
+  let seed ← natF j "seed"
+  let s0 ← parseInit (← field j "init") sid gid
+  let cond ← parseExpression (← field j "cond")
+  let isTrue ← boolF j "is_true"
+  let implJ ← field j "impl"
+  let kind := exprKind cond
+  if let .ok m := implJ.getStr? then
+    return s!"spec class=sc-impl-{(m.splitOn ":").headD "panic"}:{kind} expected=state impl={m.take 100}"
+  let impl : Option MSt ← if implJ == Json.null then pure none else some <$> parseImplState implJ s0.st.globals sid gid
+  let model := specializeConditional s0 cond isTrue
+  let inFrag := condFrag cond && ptrCmpFree s0 cond isTrue && decide (C12.WellSized cond) && regsOk s0
+  -- the soundness statement on the implementation output: a concrete state in γ of the input state in which the
+  -- condition has the truth value of the branch is in γ of the specialised state (which exists)
+  let mut sat := 0
+  if decide (C12.WellSized cond) && regsOk s0 then
+    for k in List.range 10 do
+      let ρ := if inFrag then ((rhos gid)[k % 4]?).getD (fun _ => 0) else ((rhos gid)[0]?).getD (fun _ => 0)
+      match pickState ρ s0.st.regs seed k with
+      | none => pure ()
+      | some σ =>
+        match Sem.eval σ cond with
+        | some v =>
+          -- outside the proved fragment Boolean operations occur: their operands must be P-Code booleans
+          if v.w == 8 && v.toNat == (if isTrue then 1 else 0) && (inFrag || (flagsBoolean σ && boolOperandsOk σ cond)) then
+            sat := sat + 1
+            let rs := s0.st.regs.map fun p => s!"{p.1.name}={showBv (σ.getReg p.1)}"
+            match impl with
+            | none =>
+              return s!"spec class=sc-unsat-but-satisfiable:{kind}{if inFrag then "" else "-validated"} expected=state impl=none at={" ".intercalate rs}"
+            | some im =>
+              match checkState ρ false im σ with
+              | some e =>
+                return s!"spec class=sc-excluded:{kind}{if inFrag then "" else "-validated"} expected=member impl={e} at={" ".intercalate rs}"
+              | none => pure ()
+        | none => pure ()
+  match model, impl with
+  | none, none => pure ()
+  | some _, none => return s!"diff class=sc-unsat:{kind} model=state impl=none"
+  | none, some _ => return s!"diff class=sc-unsat:{kind} model=none impl=state"
+  | some m, some im =>
+    match stateDiff m im with
+    | some e => return s!"diff class=sc:{kind} {e}"
+    | none => pure ()
+  return s!"ok sc {kind}" ++ (if inFrag then " in-proved-fragment" else " validated-only") ++ (if sat > 0 then " branch-taken-concretely" else "")
+    ++ (if impl.isNone then " unsatisfiable" else "")
+
 def handleE (line : String) : Except String String := do
   let j ← Json.parse line
   match (← strF j "q") with
@@ -409,6 +684,8 @@ def handleE (line : String) : Except String String := do
   | "null" => handleNull j
   | "dd" => handleDd j
   | "ev" => handleEv j
+  | "ms" => handleMs j
+  | "sc" => handleSc j
   | q => throw s!"unknown case kind {q}"
 
 end CweModel.C13
